@@ -1,0 +1,32 @@
+//go:build verif
+
+// Contracts for the command-line driver, read by /verif/govc (comment-only file; never compiled).
+// The specification (spec/cli.smt2) is the fold over input lines the property statement describes.
+package main
+
+//@ func main.isTerminal
+//@   trusted inspects the reader's dynamic type and the terminal state of a file descriptor; no effect on the translation
+
+//@ func main.run
+//@   use cli
+//@   ghosttrace logError
+//@   ensures @stdout: readErrOf(input) == nil && !isLet(cliTail(linesOf(input))) ==> wout(output) == cliOut(cliFinal(old(wout(output)), linesOf(input)))
+//@   ensures @status: readErrOf(input) == nil && !isLet(cliTail(linesOf(input))) ==> (result == nil) == !cliFailed(cliFinal(old(wout(output)), linesOf(input)))
+//@   ensures @readerror: readErrOf(input) != nil ==> result != nil
+//@   ensures @stderr: readErrOf(input) == nil && !isLet(cliTail(linesOf(input))) ==> len(trace) == cliNerr(cliFinal(old(wout(output)), linesOf(input)))
+//@   assigns *
+//@ loop 1
+//@   invariant scanner != nil && scansrc(scanner) == input && 0 <= scanidx(scanner) && scanidx(scanner) <= len(linesOf(input))
+//@   invariant sb != nil && letStatements != nil && sb != letStatements
+//@   invariant out(sb) == cliPend(linesOf(input), scanidx(scanner))
+//@   invariant out(letStatements) == cliLets(cliSt(old(wout(output)), linesOf(input), scanidx(scanner)))
+//@   invariant (finalError != nil) == cliFailed(cliSt(old(wout(output)), linesOf(input), scanidx(scanner))) && wout(output) == cliOut(cliSt(old(wout(output)), linesOf(input), scanidx(scanner))) && len(trace) == cliNerr(cliSt(old(wout(output)), linesOf(input), scanidx(scanner)))
+//@   decreases len(linesOf(input)) - scanidx(scanner)
+//@ loop 2
+//@   invariant -1 <= rangeindex && rangeindex < len(statements) - 1
+//@   invariant scanner != nil && scansrc(scanner) == input && 1 <= scanidx(scanner) && scanidx(scanner) <= len(linesOf(input))
+//@   invariant sb != nil && letStatements != nil && sb != letStatements
+//@   invariant out(sb) == lineOut(cliPend(linesOf(input), scanidx(scanner) - 1), linesOf(input)[scanidx(scanner) - 1]) && statements == splitOf(Out.str(out(sb))) && len(statements) >= 2
+//@   invariant out(letStatements) == cliLets(stepStmts(cliSt(old(wout(output)), linesOf(input), scanidx(scanner) - 1), statements, rangeindex + 1))
+//@   invariant (finalError != nil) == cliFailed(stepStmts(cliSt(old(wout(output)), linesOf(input), scanidx(scanner) - 1), statements, rangeindex + 1)) && wout(output) == cliOut(stepStmts(cliSt(old(wout(output)), linesOf(input), scanidx(scanner) - 1), statements, rangeindex + 1)) && len(trace) == cliNerr(stepStmts(cliSt(old(wout(output)), linesOf(input), scanidx(scanner) - 1), statements, rangeindex + 1))
+//@   decreases len(statements) - rangeindex
